@@ -1250,11 +1250,11 @@ func genC40Script(rt *rapid.T, maxSteps int) []c40Step {
 		if s.Op == "syn" {
 			// invalid even/lower ids end the session: keep them rare
 			switch k := rapid.IntRange(0, 39).Draw(rt, "synKind"); {
-			case k == 39:
+			case k == 20: // (rapid favours the ends of a range, so the rare kinds sit in the middle)
 				s.A = 9
-			case k == 38:
+			case k == 21:
 				s.A = 8
-			case k >= 34:
+			case k >= 22 && k <= 25:
 				s.A = 7
 			default:
 				s.A = 0
